@@ -4,6 +4,7 @@ package main
 // aimed at the modifier values of the rule under test.
 
 import (
+	"fmt"
 	"net/netip"
 	"os"
 	"sort"
@@ -28,7 +29,10 @@ var (
 		"Bob \"Mac\"", "the kids'", "\"", "'", "\"x", "y'", "''a''", "\"\"b", "'\"", "\"q\" 'r'", "\\'", "a\\\""}
 	ePoolTagsX = []string{"device_pc", "device_phone", "device_", "device_pc2", "os_linux", "user_admin", "user_child", "a", "b", "c", "aa", "ab", "z9", "_", "0"}
 	ePoolDNS   = []string{"A", "AAAA", "CNAME", "HTTPS", "TXT", "MX", "PTR", "SRV", "SVCB", "a", "aaaa", "Https", "NS", "SOA", "ANY", "TYPE65", "None", "Reserved", "", "A1"}
-	ePoolSrc   = []string{"com", "org", "co.uk", "de", "blogspot.com", "kawasaki.jp", "city.kawasaki.jp", "notgoogle.com", "github.io", "local", "example"}
+	// suffixes for `x.*` values: ICANN suffixes of 1, 2, 3 and 4 labels (wildcard rules of the list: "foo.kawasaki.jp" is a
+	// suffix because of `*.kawasaki.jp`, "city.kawasaki.jp" is not because of `!city.kawasaki.jp`), private suffixes, non-suffixes
+	ePoolSrc = []string{"com", "org", "co.uk", "de", "blogspot.com", "kawasaki.jp", "city.kawasaki.jp", "notgoogle.com", "github.io", "local", "example",
+		"foo.kawasaki.jp", "k12.ca.us", "ac.gov.br", "tsukuba.ibaraki.jp", "gov.nc.tr", "a.sch.uk", "c.kobe.jp", "pvt.k12.ma.us", "com.au", "jp"}
 )
 
 // eReseed decorrelates the streams of different seeds: newRng(seed) starts the
@@ -50,6 +54,9 @@ func eQuoteClient(r *rng, c string) string {
 
 func eGenClientValue(r *rng) string {
 	n := 1 + r.n(6)
+	if r.chance(1, 20) {
+		n = nValueCount(r, 7, 150)
+	}
 	var items []string
 	for i := 0; i < n; i++ {
 		var c string
@@ -80,6 +87,16 @@ func eGenDomainList(r *rng, wild bool, neg bool) string {
 		if r.chance(1, 12) {
 			items[i] = mutateCase(r, items[i])
 		}
+	}
+	if r.chance(1, 20) {
+		// a LONG list (log-scale): the values a request is aimed at lie anywhere among generated ones
+		items = nSpread(r, items, nWideValues(nValueCount(r, 7, 300), nil))
+	}
+	if r.chance(1, 16) {
+		// a LONG name as a value (a subdomain chain of up to 253 bytes under a pool name)
+		items[r.n(len(items))] = nLongHost(r, pick(r, poolDomains))
+	}
+	for i := range items {
 		if neg {
 			items[i] = negate(r, items[i], 1, 3)
 		}
@@ -93,6 +110,11 @@ func eGenList(r *rng, pool []string, maxN int, neg bool) string {
 	items := make([]string, n)
 	for i := range items {
 		items[i] = pick(r, pool)
+	}
+	if r.chance(1, 20) {
+		items = nSpread(r, items, nWideValues(nValueCount(r, maxN+1, 200), pool)) // a LONG list (log-scale)
+	}
+	for i := range items {
 		if neg {
 			items[i] = negate(r, items[i], 1, 3)
 		}
@@ -178,6 +200,18 @@ func eGenValidNetRule(r *rng) (*rules.NetworkRule, string) {
 // the domain itself, a subdomain, a sibling sharing the suffix without a
 // label boundary, a wildcard-TLD instance and its near misses.
 func eHostAround(r *rng, d string) string {
+	if r.chance(1, 10) {
+		// a LONG host (log-scale total length up to 253 bytes): a subdomain chain under the value / under an instance
+		// of the wildcard value, or (control) the same labels in front of a name that only ends like the value
+		if strings.HasSuffix(d, ".*") {
+			d = d[:len(d)-1] + pick(r, ePoolSrc)
+		}
+		if r.chance(1, 5) {
+			return nLongHost(r, "not"+d)
+		}
+
+		return nLongHost(r, d)
+	}
 	if strings.HasSuffix(d, ".*") {
 		base := d[:len(d)-2]
 		switch r.n(8) {
@@ -310,7 +344,7 @@ func eAimedRequest(r *rng, f *rules.NetworkRule, text string) *rules.Request {
 	// tags: from the rule's own values and near misses, sorted
 	tagSet := map[string]bool{}
 	ruleTags := append(append([]string{}, v.PermittedClientTags...), v.RestrictedClientTags...)
-	nt := r.n(4)
+	nt := nCount(r, r.n(4), 24, 5, 80)
 	for i := 0; i < nt; i++ {
 		switch {
 		case len(ruleTags) > 0 && r.chance(1, 2):
@@ -323,6 +357,8 @@ func eAimedRequest(r *rng, f *rules.NetworkRule, text string) *rules.Request {
 				x += pick(r, []string{"0", "_", "z"})
 			}
 			tagSet[x] = true
+		case nt > 4 && r.chance(2, 3):
+			tagSet[pick(r, []string{"a", "device_", "tag_", "z"})+fmt.Sprintf("%03d", r.n(400))] = true // many tags: generated ones around the pool's
 		default:
 			tagSet[pick(r, ePoolTagsX)] = true
 		}
